@@ -146,9 +146,11 @@ pub struct SubsetTexts {
     pub subsets: Vec<u32>,
 }
 
-fn run(dict: &Dict, mode: Mode, s: Option<InfoSubset>, mode_first: bool, text: &str) -> Result<Vec<Tok>, AErr> {
+/// order 0: set_mode then set_subset; 1: set_subset then set_mode; 2: set_subset, then the mode is
+/// reached through another one (what a per-call mode override followed by its restoration does)
+fn run(dict: &Dict, mode: Mode, s: Option<InfoSubset>, order: u8, text: &str) -> Result<Vec<Tok>, AErr> {
     let mut tok = StatefulTokenizer::new(dict.clone(), Mode::C);
-    if mode_first {
+    if order == 0 {
         tok.set_mode(mode);
         if let Some(x) = s {
             tok.set_subset(x);
@@ -156,6 +158,13 @@ fn run(dict: &Dict, mode: Mode, s: Option<InfoSubset>, mode_first: bool, text: &
     } else {
         if let Some(x) = s {
             tok.set_subset(x);
+        }
+        if order == 2 {
+            tok.set_mode(match mode {
+                Mode::A => Mode::B,
+                Mode::B => Mode::C,
+                Mode::C => Mode::A,
+            });
         }
         tok.set_mode(mode);
     }
@@ -189,6 +198,12 @@ fn tok_fields(t: &Tok, s: InfoSubset) -> Vec<String> {
     if s.contains(InfoSubset::WORD_STRUCTURE) {
         v.push(format!("{:?}", t.word_structure));
     }
+    if s.contains(InfoSubset::SPLIT_A) {
+        v.push(format!("A{:?}", t.a_split));
+    }
+    if s.contains(InfoSubset::SPLIT_B) {
+        v.push(format!("B{:?}", t.b_split));
+    }
     v
 }
 
@@ -212,7 +227,7 @@ impl Space for SubsetTexts {
         let dict = &self.world.dict;
         let need = InfoSubset::SURFACE | InfoSubset::POS_ID | InfoSubset::NORMALIZED_FORM;
         for mode in MODES {
-            let full = match catch(|| run(dict, mode, None, true, &text)) {
+            let full = match catch(|| run(dict, mode, None, 0, &text)) {
                 Ok(Ok(t)) => t,
                 Ok(Err(_)) => {
                     o.count("rejected", 1);
@@ -225,10 +240,10 @@ impl Space for SubsetTexts {
             };
             for &bits in &self.subsets {
                 let s = InfoSubset::from_bits_truncate(bits);
-                for mode_first in [true, false] {
+                for order in [0u8, 1, 2] {
                     o.evaluations += 1;
-                    let ctx = format!("[{} mode {} subset {:?} {}] {:?}", self.world.name(), mode_name(mode), s, if mode_first { "set_mode then set_subset" } else { "set_subset then set_mode" }, text);
-                    match catch(|| run(dict, mode, Some(s), mode_first, &text)) {
+                    let ctx = format!("[{} mode {} subset {:?} {}] {:?}", self.world.name(), mode_name(mode), s, ["set_mode then set_subset", "set_subset then set_mode", "set_subset, then the mode reached through another mode"][order as usize], text);
+                    match catch(|| run(dict, mode, Some(s), order, &text)) {
                         Err(p) => o.fail(Failure::panic(&ctx, &p)),
                         Ok(Err(e)) => o.fail(Failure::new("error-with-subset", format!("{}: {:?}", ctx, e))),
                         Ok(Ok(t)) => {
@@ -280,7 +295,7 @@ pub fn c11_spec(name: &str, rewrite: bool) -> WorldSpec {
 
 pub fn main(tier: Tier, replay: Option<String>) -> i32 {
     let mut rep = Report::new("C11", "model_checking", tier);
-    rep.rule = "part 1: every word of a world with two user dictionaries (with / without synonym ids, elided and non-elided forms, own and foreign dictionary forms, strings across the one-byte/two-byte length prefix) x all 1024 field subsets, through LexiconSet::get_word_info_subset(normalize()) and through a tokenizer after set_subset; part 2: every text within the bound x all 1024 subsets x modes A/B/C x both orders of set_mode/set_subset; requested fields must equal the all-fields values, surfaces must partition the input, tokens must equal the full analysis when no path-rewrite plugin is configured or the subset covers surface, POS and normalised form; non-trivial = a proper subset was requested".into();
+    rep.rule = "part 1: every word of a world with two user dictionaries (with / without synonym ids, elided and non-elided forms, own and foreign dictionary forms, strings across the one-byte/two-byte length prefix) x all 1024 field subsets, through LexiconSet::get_word_info_subset(normalize()) and through a tokenizer after set_subset; part 2: every text within the bound x all 1024 subsets x modes A/B/C x three orders (set_mode then set_subset, the reverse, and the mode reached through another mode after set_subset); requested fields must equal the all-fields values, surfaces must partition the input, tokens must equal the full analysis when no path-rewrite plugin is configured or the subset covers surface, POS and normalised form; non-trivial = a proper subset was requested".into();
     rep.assumptions = vec!["at the raw lexicon API the request is closed with InfoSubset::normalize() first (the documented closure)".into()];
     let mut jobs: Vec<Box<dyn AnyJob>> = Vec::new();
     // The worlds are valid input that builds on a correct tree.  Building the user dictionaries
@@ -307,7 +322,7 @@ pub fn main(tier: Tier, replay: Option<String>) -> i32 {
     let all: Vec<u32> = (0..1024).collect();
     for (w, has_rewrite) in [(w_plain, false), (w_rw, true)] {
         let bounds = tier.pick(TreeBounds { full_len: 1, ext_len: 2, max_special: 0 }, TreeBounds { full_len: 2, ext_len: 3, max_special: 1 });
-        let b = json!({"tree": bounds.to_json(), "subsets": 1024, "modes": 3, "orders": 2});
+        let b = json!({"tree": bounds.to_json(), "subsets": 1024, "modes": 3, "orders": 3});
         jobs.push(job(SubsetTexts { world: w, has_rewrite, alpha: alpha.clone(), bounds, subsets: all.clone() }, Strategy::Dfs, Some(tier.pick(60, 3000)), b));
     }
     drive(rep, jobs, replay)
